@@ -8,6 +8,7 @@ From FRP Require Import Model.FrameSys Proofs.FrameSysProofs Model.FrameSysLogin
 From FRP Require Import Model.MsgRec Proofs.MsgRecProofs gen.GenMsgRec gen.GenMsgRecThms.
 From FRP Require Import Model.Datagram Model.DatagramTypes Proofs.DatagramProofs gen.GenDgram.
 From FRP Require Import Proofs.ReadSitesCheck gen.GenReadSites.
+From FRP Require Import Model.MsgSeq Proofs.MsgSeqProofs Golden.GoldenStack gen.GenVisitorStacks.
 Open Scope Z_scope.
 
 Definition today_registry := registry type_consts type_map.
@@ -318,6 +319,56 @@ Theorem C17_read_sites_unbuffered :
   dst_calls = [].
 Proof. exact (read_sites_ok_sound read_sites dst_calls (eq_refl true <: read_sites_ok read_sites dst_calls = true)). Qed.
 Print Assumptions C17_read_sites_unbuffered.
+
+(** * Sequences of frames read into the consumer *)
+
+(* a reader loop that decodes every frame into a FRESH value hands the consumer exactly the messages that were
+   encoded, in order, for every schema and every list of messages *)
+Theorem C17_sequence_roundtrip_fresh_targets : forall fs vss,
+  schema_wf fs = true -> Forall (fun vs => typed_fields_with typed fs vs = true) vss ->
+  seq_decode_fresh fs (map (enc_obj fs) vss) = Some vss.
+Proof. exact seq_fresh_roundtrip. Qed.
+Print Assumptions C17_sequence_roundtrip_fresh_targets.
+
+(* with ONE target for the whole connection it does not (ReadMsgInto merges): a UDPPacket with content "x"
+   followed by one with empty content ("c" omitted) is handed over as content "x" twice *)
+Theorem C17_sequence_shared_target_refuted :
+  exists vss, Forall (fun vs => typed_fields_with typed schema_UDPPacket vs = true) vss /\
+              seq_decode_shared schema_UDPPacket (map (fun f : field => zero_val (f_kind f)) schema_UDPPacket)
+                                (map (enc_obj schema_UDPPacket) vss) <> Some vss.
+Proof.
+  exists [[VStr (bs "x"); VPtr None; VPtr None]; [VStr []; VPtr None; VPtr None]].
+  split; [repeat constructor|vm_compute; discriminate].
+Qed.
+Print Assumptions C17_sequence_shared_target_refuted.
+
+(* Reflective (gen/GenReadSites.v): at every msg.ReadMsgInto call site inside a loop the decode target is
+   declared in the loop body (fresh per frame); no target is shared or unrecognised *)
+Theorem C17_loop_decode_targets_fresh :
+  forall f g k, In (f, g, k) read_targets -> k <> "shared"%string /\ k <> "unknown"%string.
+Proof. exact (read_targets_ok_sound read_targets (eq_refl true <: read_targets_ok read_targets = true)). Qed.
+Print Assumptions C17_loop_decode_targets_fresh.
+
+(* Reflective: what the read-loop model (fs_stream_step) rests on: doneCh is closed by readLoop only, i.e. after
+   the handler in flight returned; readLoop calls the handler directly; NewProxy / CloseProxy / Ping handlers
+   are registered synchronously on the server *)
+Theorem C17_dispatch_inside_read_loop :
+  donech_closers = ["readLoop"%string] /\ readloop_shape = (0, 1, 1) /\
+  assoc_s "&msg.NewProxy{}" server_handlers = Some "sync"%string /\
+  assoc_s "&msg.CloseProxy{}" server_handlers = Some "sync"%string /\
+  assoc_s "&msg.Ping{}" server_handlers = Some "sync"%string.
+Proof. exact (dispatch_ok_sound _ _ _ (eq_refl true <: dispatch_ok donech_closers readloop_shape server_handlers = true)). Qed.
+Print Assumptions C17_dispatch_inside_read_loop.
+
+(* Reflective, wire stability of the LAYERING (gen/GenVisitorStacks.v, unit t5v): at every site that wraps a
+   visitor / work connection the order of the wrappers is the pinned released one (encryption next to the
+   connection, compression on top) *)
+Definition C17_wrapper_sites : list (list (string * string * string)) :=
+  [gvs_server_newconn; gvs_client_stcp; gvs_client_sudp; gvs_client_xtcp; gvs_handle_tcp; gvs_sudp_owner; gvs_server_work].
+Theorem C17_wrapper_order_wire_stable :
+  forall st, In st C17_wrapper_sites -> stack_kinds st = golden_wrapper_order.
+Proof. exact (stacks_order_ok_sound golden_wrapper_order C17_wrapper_sites (eq_refl true <: stacks_order_ok golden_wrapper_order C17_wrapper_sites = true)). Qed.
+Print Assumptions C17_wrapper_order_wire_stable.
 
 (** * Message level: one round-trip theorem per registered message type
    (records, conversions, type bytes and encode_T / decode_T are regenerated from pkg/msg/msg.go on
